@@ -36,11 +36,13 @@ structure COInv (m : M) : Prop where
   hhLine : ∀ dt hh line raw src, m.st = .hunkHeader dt hh line raw src → line ≠ []
 
 /-- result of one handler in color-only mode -/
-structure CO (m m' : M) (b : Bool) : Prop where
+structure CO (l : L) (m m' : M) (b : Bool) : Prop where
   inv : COInv m'
   n : m'.n = m.n
   claimed : b = true → acct m' = acct m ++ [m.n]
   passed : b = false → acct m' = acct m ∧ pend m' = pend m
+  /-- only a hunk-header line leaves a header pending -/
+  fresh : b = true → pend m' = [] ∨ startsWith l.text Generated.Markers.hunkHeader = true
 
 def bodyChar (c : Char) : Bool := c == ' ' || c == '+' || c == '-' || c == '\\'
 
@@ -73,8 +75,8 @@ theorem startsWithAny_false_of_head {s : Str} {ps : List Str} (hs : s.head?.all 
   have := List.all_eq_true.mp hp p hmem
   simp [startsWith_false_of_head hs this]
 
-theorem CO.pass {m : M} (inv : COInv m) : CO m m false :=
-  ⟨inv, rfl, fun h => (by cases h), fun _ => ⟨rfl, rfl⟩⟩
+theorem CO.pass {l : L} {m : M} (inv : COInv m) : CO l m m false :=
+  ⟨inv, rfl, fun h => (by cases h), fun _ => ⟨rfl, rfl⟩, fun h => (by cases h)⟩
 
 theorem srcs_of_tl {m m' : M} {rows : List Row} (h : timeline m' = timeline m ++ rows) :
     srcs m' = srcs m ++ rows.map (·.src) := by
@@ -144,15 +146,15 @@ theorem COInv.same {m m' : M} (inv : COInv m) (hm : m'.modeInfo = m.modeInfo) (h
   ⟨hm ▸ inv.mode, hs ▸ inv.source, fun dt hh line raw src h => inv.hhLine dt hh line raw src (hst ▸ h)⟩
 
 /-- a handler that wrote exactly one row for the current line and left no header pending -/
-theorem CO.claim {m m' : M} {row : Row} (inv' : COInv m') (hn : m'.n = m.n)
+theorem CO.claim {l : L} {m m' : M} {row : Row} (inv' : COInv m') (hn : m'.n = m.n)
     (htl : timeline m' = timeline m ++ [row]) (hsrc : row.src = m.n) (hp : pend m = []) (hp' : pend m' = []) :
-    CO m m' true :=
-  ⟨inv', hn, fun _ => by simp [acct, srcs_of_tl htl, hp, hp', hsrc], fun h => by cases h⟩
+    CO l m m' true :=
+  ⟨inv', hn, fun _ => by simp [acct, srcs_of_tl htl, hp, hp', hsrc], fun h => (by cases h), fun _ => Or.inl hp'⟩
 
 /-- a handler that passed the line on, possibly changing the state, with nothing pending -/
-theorem CO.passUpd {m m' : M} (inv' : COInv m') (hn : m'.n = m.n)
-    (htl : timeline m' = timeline m) (hp : pend m = []) (hp' : pend m' = []) : CO m m' false :=
-  ⟨inv', hn, fun h => (by cases h), fun _ => ⟨by simp [acct, srcs, htl, hp, hp'], by rw [hp, hp']⟩⟩
+theorem CO.passUpd {l : L} {m m' : M} (inv' : COInv m') (hn : m'.n = m.n)
+    (htl : timeline m' = timeline m) (hp : pend m = []) (hp' : pend m' = []) : CO l m m' false :=
+  ⟨inv', hn, fun h => (by cases h), fun _ => ⟨by simp [acct, srcs, htl, hp, hp'], by rw [hp, hp']⟩, fun h => (by cases h)⟩
 
 @[simp] theorem timeline_upd_st (m : M) (s : State) : timeline { m with st := s } = timeline m := rfl
 
@@ -180,7 +182,7 @@ theorem pend_flushMP (m : M) : pend (flushMP m) = pend m := by
   unfold pend; rw [flushMP_st]
 
 theorem handleCommitMeta_co {cfg : Cfg} {m m' : M} {l : L} {b : Bool} (nf : CONormal cfg) (inv : COInv m)
-    (hp : pend m = [] ∨ HunkBody l) (e : handleCommitMeta cfg m l = .ok (b, m')) : CO m m' b := by
+    (hp : pend m = [] ∨ HunkBody l) (e : handleCommitMeta cfg m l = .ok (b, m')) : CO l m m' b := by
   obtain ⟨hco, hcd, _, _⟩ := nf
   unfold handleCommitMeta at e
   split at e
@@ -240,7 +242,7 @@ theorem pend_writeGeneric (cfg : Cfg) (m : M) (t r : Str) : pend (writeGeneric c
 /-- `should_write_generic_diff_header_header_line` in color-only mode: claims, one row -/
 theorem shouldWriteGeneric_co {cfg : Cfg} {m x : M} (l : L) (nf : CONormal cfg) (inv : COInv m)
     (hp0 : pend m = []) (hx : Same m x) :
-    (shouldWriteGeneric cfg x l).1 = true ∧ CO m (shouldWriteGeneric cfg x l).2 true := by
+    (shouldWriteGeneric cfg x l).1 = true ∧ CO l m (shouldWriteGeneric cfg x l).2 true := by
   have hco := nf.1
   unfold shouldWriteGeneric
   simp only [hco, if_true, true_and]
@@ -256,7 +258,7 @@ theorem shouldWriteGeneric_co {cfg : Cfg} {m x : M} (l : L) (nf : CONormal cfg) 
   · unfold pend; rw [hst]; exact hp0
 
 theorem handleFileOperation_co {cfg : Cfg} {m m' : M} {l : L} {b : Bool} (nf : CONormal cfg) (inv : COInv m)
-    (hp : pend m = [] ∨ HunkBody l) (e : handleFileOperation cfg m l = .ok (b, m')) : CO m m' b := by
+    (hp : pend m = [] ∨ HunkBody l) (e : handleFileOperation cfg m l = .ok (b, m')) : CO l m m' b := by
   unfold handleFileOperation at e
   split at e
   · cases e; exact CO.pass inv
@@ -274,7 +276,7 @@ theorem handleFileOperation_co {cfg : Cfg} {m m' : M} {l : L} {b : Bool} (nf : C
     obtain ⟨rfl, rfl⟩ := ok_pair e; exact h2
 
 theorem handleMinusLine_co {cfg : Cfg} {m m' : M} {l : L} {b : Bool} (nf : CONormal cfg) (inv : COInv m)
-    (hp : pend m = [] ∨ HunkBody l) (e : handleMinusLine cfg m l = .ok (b, m')) : CO m m' b := by
+    (hp : pend m = [] ∨ HunkBody l) (e : handleMinusLine cfg m l = .ok (b, m')) : CO l m m' b := by
   unfold handleMinusLine at e
   split at e
   · cases e; exact CO.pass inv
@@ -295,7 +297,7 @@ theorem handleMinusLine_co {cfg : Cfg} {m m' : M} {l : L} {b : Bool} (nf : CONor
     rw [h1]; exact h2
 
 theorem handlePlusLine_co {cfg : Cfg} {m m' : M} {l : L} {b : Bool} (nf : CONormal cfg) (inv : COInv m)
-    (hp : pend m = [] ∨ HunkBody l) (e : handlePlusLine cfg m l = .ok (b, m')) : CO m m' b := by
+    (hp : pend m = [] ∨ HunkBody l) (e : handlePlusLine cfg m l = .ok (b, m')) : CO l m m' b := by
   unfold handlePlusLine at e
   split at e
   · cases e; exact CO.pass inv
@@ -315,7 +317,7 @@ theorem handlePlusLine_co {cfg : Cfg} {m m' : M} {l : L} {b : Bool} (nf : CONorm
     obtain ⟨rfl, rfl⟩ := ok_pair e; exact h2
 
 theorem handleDiffStat_co {cfg : Cfg} {m m' : M} {l : L} {b : Bool} (inv : COInv m)
-    (e : handleDiffStat cfg m l = .ok (b, m')) : CO m m' b := by
+    (e : handleDiffStat cfg m l = .ok (b, m')) : CO l m m' b := by
   unfold handleDiffStat at e; cases e; exact CO.pass inv
 
 theorem nonBody_diffLine : nonBody Generated.Markers.diffLine = true := by decide
@@ -326,7 +328,7 @@ theorem nonBody_binaryFiles : nonBody Generated.Markers.binaryFiles = true := by
 theorem nonBody_submoduleLog : nonBody Generated.Markers.submoduleLog = true := by decide
 
 theorem handleDiffHeaderDiff_co {cfg : Cfg} {m m' : M} {l : L} {b : Bool} (nf : CONormal cfg) (inv : COInv m)
-    (hp : pend m = [] ∨ HunkBody l) (e : handleDiffHeaderDiff cfg m l = .ok (b, m')) : CO m m' b := by
+    (hp : pend m = [] ∨ HunkBody l) (e : handleDiffHeaderDiff cfg m l = .ok (b, m')) : CO l m m' b := by
   have hco := nf.1
   unfold handleDiffHeaderDiff at e
   split at e
@@ -359,7 +361,7 @@ theorem handleDiffHeaderDiff_co {cfg : Cfg} {m m' : M} {l : L} {b : Bool} (nf : 
       exact pend_nil_of_not_hh hds
 
 theorem handleHunkHeader_co {cfg : Cfg} {m m' : M} {l : L} {b : Bool} (inv : COInv m)
-    (hp : pend m = [] ∨ HunkBody l) (e : handleHunkHeader cfg m l = .ok (b, m')) : CO m m' b := by
+    (hp : pend m = [] ∨ HunkBody l) (e : handleHunkHeader cfg m l = .ok (b, m')) : CO l m m' b := by
   unfold handleHunkHeader at e
   split at e
   · cases e; exact CO.pass inv
@@ -377,9 +379,516 @@ theorem handleHunkHeader_co {cfg : Cfg} {m m' : M} {l : L} {b : Bool} (inv : COI
     · cases e
       have hne : l.text ≠ [] := by
         intro h; rw [h] at hsw; simp [startsWith, Generated.Markers.hunkHeader, List.isPrefixOf] at hsw
-      refine ⟨⟨inv.mode, inv.source, ?_⟩, rfl, fun _ => ?_, fun h => by cases h⟩
+      refine ⟨⟨inv.mode, inv.source, ?_⟩, rfl, fun _ => ?_, fun h => (by cases h), fun _ => Or.inr hsw⟩
       · intro dt hh line raw src h; cases h; exact hne
       · have : acct m = srcs m := by simp [acct, hp0]
         rw [this]; rfl
+
+theorem stripPrefix_none_of_head {s p : Str} (hs : s.head?.all bodyChar = true) (hp : nonBody p = true) :
+    stripPrefix s p = none := by
+  unfold stripPrefix; simp [startsWith_false_of_head hs hp]
+
+theorem handleModeLine_co {cfg : Cfg} {m m' : M} {l : L} {b : Bool} (nf : CONormal cfg) (inv : COInv m)
+    (hp : pend m = [] ∨ HunkBody l) (e : handleModeLine cfg m l = .ok (b, m')) : CO l m m' b := by
+  have hco := nf.1
+  rcases pend_cases hp with hp0 | ⟨_, hb⟩
+  · unfold handleModeLine at e
+    simp only [hco, not_true_eq_false, and_false, false_and, if_false] at e
+    split at e
+    · cases e
+      exact CO.passUpd ⟨inv.mode, inv.source, fun _ _ _ _ _ h => by cases h⟩ rfl rfl hp0 rfl
+    · split at e
+      · cases e
+        exact CO.passUpd ⟨inv.mode, inv.source, fun _ _ _ _ _ h => by cases h⟩ rfl rfl hp0 rfl
+      · cases e; exact CO.pass inv
+  · unfold handleModeLine at e
+    rw [stripPrefix_none_of_head hb.2 nonBody_oldMode, stripPrefix_none_of_head hb.2 nonBody_newMode] at e
+    cases e; exact CO.pass inv
+
+/-- `handle_additional_cases` in color-only mode, nothing pending, target state not a hunk header -/
+theorem handleAdditionalCases_co {cfg : Cfg} {m m' : M} {l : L} {b : Bool} {to : State} (nf : CONormal cfg)
+    (inv : COInv m) (hp0 : pend m = []) (hto : isHunkHeader to = false)
+    (e : handleAdditionalCases cfg m l to = .ok (b, m')) : CO l m m' b := by
+  unfold handleAdditionalCases at e
+  split at e
+  · cases e
+    obtain ⟨row, htl, hsrc, hmode⟩ := writeGeneric_co nf { m with st := to } l.text l.raw
+    have hfl : ({ flushMP m with st := to } : M) = flushMP { m with st := to } := by
+      unfold flushMP; split <;> rfl
+    rw [hfl]
+    refine CO.claim (row := row) ⟨hmode, ?_, ?_⟩ ?_ htl hsrc hp0 ?_
+    · rw [writeGeneric_source, emit_source, flushMP_source]; exact inv.source
+    · intro dt hh line raw src h
+      rw [writeGeneric_st, emit_st, flushMP_st] at h
+      have : isHunkHeader to = true := by rw [show to = _ from h]; rfl
+      rw [hto] at this; cases this
+    · rw [writeGeneric_n, emit_n, flushMP_n]
+    · rw [pend_writeGeneric, pend_emit, pend_flushMP]; exact pend_nil_of_not_hh hto
+  · cases e
+    exact CO.passUpd ⟨(flushMP_modeInfo m).trans inv.mode, (flushMP_source m).trans inv.source,
+        fun dt hh line raw src h => by
+          have : isHunkHeader to = true := by rw [show to = _ from h]; rfl
+          rw [hto] at this; cases this⟩
+      (flushMP_n m) (timeline_flushMP m) hp0 (pend_nil_of_not_hh hto)
+
+theorem handleMisc_co {cfg : Cfg} {m m' : M} {l : L} {b : Bool} (nf : CONormal cfg) (inv : COInv m)
+    (hp : pend m = [] ∨ HunkBody l) (e : handleMisc cfg m l = .ok (b, m')) : CO l m m' b := by
+  have hco := nf.1
+  unfold handleMisc at e
+  simp only [inv.source, hco, not_true_eq_false, false_and, if_false] at e
+  split at e
+  · cases e; exact CO.pass inv
+  · rename_i ht
+    have hp0 : pend m = [] := by
+      rcases pend_cases hp with h | ⟨_, h⟩
+      · exact h
+      · simp [startsWith_false_of_head h.2 nonBody_binaryFiles] at ht
+    refine handleAdditionalCases_co nf inv hp0 ?_ e
+    split
+    · rename_i hd
+      cases hs : m.st <;> simp_all [isDiffHeader, isHunkHeader]
+    · rfl
+
+theorem handleSubmoduleLog_co {cfg : Cfg} {m m' : M} {l : L} {b : Bool} (nf : CONormal cfg) (inv : COInv m)
+    (hp : pend m = [] ∨ HunkBody l) (e : handleSubmoduleLog cfg m l = .ok (b, m')) : CO l m m' b := by
+  unfold handleSubmoduleLog at e
+  split at e
+  · cases e; exact CO.pass inv
+  · rename_i ht
+    have hp0 : pend m = [] := by
+      rcases pend_cases hp with h | ⟨_, h⟩
+      · exact h
+      · simp [startsWith_false_of_head h.2 nonBody_submoduleLog] at ht
+    exact handleAdditionalCases_co nf inv hp0 rfl e
+
+theorem handleSubmoduleShort_co {cfg : Cfg} {m m' : M} {l : L} {b : Bool} (nf : CONormal cfg) (inv : COInv m)
+    (e : handleSubmoduleShort cfg m l = .ok (b, m')) : CO l m m' b := by
+  unfold handleSubmoduleShort at e
+  simp only [nf.1, Bool.or_true, if_true] at e
+  cases e; exact CO.pass inv
+
+theorem handleMergeConflict_co {cfg : Cfg} {m m' : M} {l : L} {b : Bool} (nf : CONormal cfg) (inv : COInv m)
+    (e : handleMergeConflict cfg m l = .ok (b, m')) : CO l m m' b := by
+  unfold handleMergeConflict at e
+  simp only [nf.1, true_or, if_true] at e
+  cases e; exact CO.pass inv
+
+theorem handleGitShowFile_co {cfg : Cfg} {m m' : M} {l : L} {b : Bool} (inv : COInv m)
+    (e : handleGitShowFile cfg m l = .ok (b, m')) : CO l m m' b := by
+  unfold handleGitShowFile at e
+  cases e
+  exact ⟨⟨inv.mode, inv.source, inv.hhLine⟩, rfl, fun h => (by cases h),
+    fun _ => ⟨by simp [acct, srcs, timeline_emit, pend_emit], pend_emit m⟩, fun h => (by cases h)⟩
+
+theorem handleShouldSkip_co {cfg : Cfg} {m m' : M} {l : L} {b : Bool} (nf : CONormal cfg) (inv : COInv m)
+    (e : handleShouldSkip cfg m l = .ok (b, m')) : CO l m m' b := by
+  unfold handleShouldSkip at e
+  rw [shouldSkipLine_co _ nf.1] at e
+  cases e; exact CO.pass inv
+
+theorem handleEmitUnchanged_co {cfg : Cfg} {m m' : M} {l : L} {b : Bool} (inv : COInv m) (hp0 : pend m = [])
+    (e : handleEmitUnchanged cfg m l = .ok (b, m')) : CO l m m' b := by
+  unfold handleEmitUnchanged at e
+  cases e
+  unfold emitLineUnchanged
+  refine CO.claim (row := { kind := .raw, text := l.raw, src := m.n }) ⟨?_, ?_, ?_⟩ ?_ ?_ rfl hp0 ?_
+  · rw [direct_modeInfo, emit_modeInfo, flushMP_modeInfo]; exact inv.mode
+  · rw [direct_source, emit_source, flushMP_source]; exact inv.source
+  · intro dt hh line raw src h
+    rw [direct_st, emit_st, flushMP_st] at h
+    exact inv.hhLine dt hh line raw src h
+  · rw [direct_n, emit_n, flushMP_n]
+  · exact timeline_direct_flushed m _
+  · rw [pend_direct, pend_emit, pend_flushMP]; exact hp0
+
+theorem pend_nil_of_quiet {m : M} (h : m.st = .blame ∨ m.st = .unknown ∨ m.st = .grep) : pend m = [] := by
+  unfold pend; rcases h with h | h | h <;> rw [h]
+
+theorem handleBlame_co {cfg : Cfg} {m m' : M} {l : L} {b : Bool} (inv : COInv m) (g : Good m)
+    (e : handleBlame cfg m l = .ok (b, m')) : CO l m m' b := by
+  unfold handleBlame at e
+  simp only at e
+  split at e
+  · rename_i hc
+    cases e
+    have hq : m.minus = [] ∧ m.plus = [] := g.quiet (by rcases hc.1 with h1 | h1 <;> (rw [h1]; rfl))
+    have hp0 : pend m = [] := pend_nil_of_quiet (by rcases hc.1 with h | h <;> simp [h])
+    refine CO.claim (row := { kind := .blame, text := l.text, src := m.n })
+      ⟨?_, ?_, fun _ _ _ _ _ h => by cases h⟩ ?_ ?_ rfl hp0 rfl
+    · exact (direct_modeInfo _ _).trans inv.mode
+    · exact (direct_source _ _).trans inv.source
+    · exact direct_n _ _
+    · exact timeline_direct_emit m _ hq.1 hq.2
+  · cases e
+    exact ⟨⟨inv.mode, inv.source, inv.hhLine⟩, rfl, fun h => (by cases h),
+      fun _ => ⟨by simp [acct, srcs, timeline_emit, pend_emit], pend_emit m⟩, fun h => (by cases h)⟩
+
+theorem handleGrep_co {cfg : Cfg} {m m' : M} {l : L} {b : Bool} (inv : COInv m) (g : Good m) (hg : l.grep ≠ 2)
+    (e : handleGrep cfg m l = .ok (b, m')) : CO l m m' b := by
+  unfold handleGrep at e
+  simp only at e
+  split at e
+  · rename_i hc
+    have hq : m.minus = [] ∧ m.plus = [] := g.quiet (by rcases hc.1 with h1 | h1 <;> (rw [h1]; rfl))
+    have hp0 : pend m = [] := pend_nil_of_quiet (by rcases hc.1 with h | h <;> simp [h])
+    cases e
+    refine CO.claim (row := { kind := .grep, text := l.text, src := m.n })
+      ⟨?_, ?_, fun _ _ _ _ _ h => by cases h⟩ ?_ ?_ rfl hp0 rfl
+    · exact (direct_modeInfo _ _).trans inv.mode
+    · exact (direct_source _ _).trans inv.source
+    · exact direct_n _ _
+    · exact timeline_direct_emit m _ hq.1 hq.2
+  · cases e
+    exact ⟨⟨inv.mode, inv.source, inv.hhLine⟩, rfl, fun h => (by cases h),
+      fun _ => ⟨by simp [acct, srcs, timeline_emit, pend_emit], pend_emit m⟩, fun h => (by cases h)⟩
+
+/-- the hunk header of color-only mode is exactly one row, stamped with the header line's index -/
+theorem hunkHeaderRows_co {cfg : Cfg} {m1 : M} {hh : HunkHeader} {line raw : Str} {src : Nat} {rows : List Row}
+    (nf : CONormal cfg) (hline : line ≠ [])
+    (e : hunkHeaderRows cfg m1 hh line raw src = .ok rows) : rows.map (·.src) = [src] := by
+  obtain ⟨hco, _, _, hhd⟩ := nf
+  unfold hunkHeaderRows at e
+  simp only [hhd, ne_eq, not_true_eq_false, if_false, List.nil_append, hco, if_true] at e
+  split at e
+  · cases e
+    obtain ⟨row, hr, hs⟩ := drawRows_none_single cfg.hunkHeaderStyle RowKind.hunkHeader line raw [] src hhd
+    rw [hr]; simp [hs]
+  · split at e
+    · cases e; rfl
+    · split at e
+      · cases e
+      · rename_i hnone
+        exfalso
+        unfold hunkHeaderText at hnone
+        split at hnone
+        · cases hnone
+        · simp only [Except.ok.injEq] at hnone
+          unfold hunkHeaderTextOf at hnone
+          simp [hco, hline] at hnone
+      · cases e
+        rename_i t _
+        obtain ⟨row, hr, hs⟩ := drawRows_none_single ({ isOmitted := cfg.hunkHeaderStyle.isOmitted } : ElemStyle)
+          RowKind.hunkHeader t t [] src rfl
+        rw [hr]; simp [hs]
+
+theorem hunkLinePre_co {cfg : Cfg} {m m2 : M} (nf : CONormal cfg) (inv : COInv m)
+    (e : hunkLinePre cfg m = .ok m2) :
+    srcs m2 = srcs m ++ pend m ∧ m2.st = m.st ∧ m2.modeInfo = m.modeInfo ∧ m2.source = m.source ∧ m2.n = m.n := by
+  unfold hunkLinePre at e
+  simp only at e
+  have hx : Same m (if m.minus.length > cfg.bufSize ∨ m.plus.length > cfg.bufSize then flushMP m else m) := by
+    split
+    · exact (Same.refl m).flushMP
+    · exact Same.refl m
+  generalize (if m.minus.length > cfg.bufSize ∨ m.plus.length > cfg.bufSize then flushMP m else m) = x at e hx
+  split at e
+  · rename_i dt hh line raw src hst
+    unfold emitHunkHeader at e
+    split at e
+    · cases e
+    · rename_i rows hr
+      cases e
+      have hline : line ≠ [] := inv.hhLine dt hh line raw src (hx.st ▸ hst)
+      have hsrc := hunkHeaderRows_co nf hline hr
+      have hp : pend m = [src] := by unfold pend; rw [← hx.st, hst]
+      refine ⟨?_, ?_, ?_, ?_, ?_⟩
+      · rw [srcs_of_tl (timeline_direct_flushed x rows), hsrc, hp]
+        simp [srcs, hx.tl]
+      · rw [direct_st, emit_st, flushMP_st]; exact hx.st
+      · rw [direct_modeInfo, emit_modeInfo, flushMP_modeInfo]; exact hx.mode
+      · rw [direct_source, emit_source, flushMP_source]; exact hx.source
+      · rw [direct_n, emit_n, flushMP_n]; exact hx.n
+  · rename_i hnot
+    cases e
+    have hp : pend m = [] := by
+      unfold pend
+      rw [← hx.st]
+      split
+      · rename_i dt hh line raw src hst; exact absurd hst (hnot dt hh line raw src)
+      · rfl
+    exact ⟨by simp [srcs, hx.tl, hp], hx.st, hx.mode, hx.source, hx.n⟩
+
+theorem hunkLinePush_co {cfg : Cfg} {m m' : M} {l : L} (e : hunkLinePush cfg m l = .ok m') :
+    m'.modeInfo = m.modeInfo ∧ m'.source = m.source ∧ isHunkHeader m'.st = false := by
+  unfold hunkLinePush at e
+  cases hn : newLineState m.st l with
+  | error err => simp [hn] at e
+  | ok o =>
+    cases o with
+    | none =>
+      simp only [hn] at e
+      cases e
+      exact ⟨flushMP_modeInfo m, flushMP_source m, rfl⟩
+    | some p =>
+      obtain ⟨k, dt⟩ := p
+      cases hp : nParents dt with
+      | error err => cases k <;> simp [hn, hp] at e
+      | ok n =>
+        cases k with
+        | minus =>
+          simp only [hn, hp] at e
+          cases e
+          refine ⟨?_, ?_, rfl⟩
+          · show (if isHunkPlus m.st = true then flushMP m else m).modeInfo = m.modeInfo
+            split <;> simp
+          · show (if isHunkPlus m.st = true then flushMP m else m).source = m.source
+            split <;> simp
+        | plus =>
+          simp only [hn, hp] at e
+          cases e
+          exact ⟨rfl, rfl, rfl⟩
+        | zero =>
+          simp only [hn, hp] at e
+          cases e
+          exact ⟨flushMP_modeInfo m, flushMP_source m, rfl⟩
+
+theorem handleHunkLine_co {cfg : Cfg} {m m' : M} {l : L} {b : Bool} (nf : CONormal cfg) (inv : COInv m)
+    (g : Good m) (e : handleHunkLine cfg m l = .ok (b, m')) : CO l m m' b := by
+  have e0 := e
+  unfold handleHunkLine at e
+  split at e
+  · cases e; exact CO.pass inv
+  · rename_i hs
+    split at e
+    · cases e
+    · rename_i m2 e2
+      split at e
+      · cases e
+      · rename_i m3 e3
+        cases e
+        obtain ⟨hsrcs2, hst2, hmode2, hsource2, hn2⟩ := hunkLinePre_co nf inv e2
+        obtain ⟨hmode3, hsource3, hst3⟩ := hunkLinePush_co e3
+        rcases handleHunkLine_spec e0 g with ⟨hb, _, _⟩ | ⟨_, hs', spec⟩
+        · cases hb
+        · obtain ⟨r2, _, hhdr, _, _⟩ := hunkLinePre_spec e2 g
+          have hplus : isHunkPlus m2.st = false → m2.plus = [] := by
+            intro hnp
+            rw [hst2] at hnp
+            rcases isHunkState_cases hs' with h | ⟨dt, h⟩ | ⟨dt, h⟩ | ⟨dt, h⟩
+            · exact (hhdr h).2
+            · have := (g.quiet (by rw [h]; rfl)).2
+              rcases r2.shrink.2 with s | s <;> simp [s, this]
+            · have := g.noPlus (by rw [h]; rfl)
+              rcases r2.shrink.2 with s | s <;> simp [s, this]
+            · rw [h] at hnp; simp [isHunkPlus] at hnp
+          obtain ⟨_, ⟨r, htl3, hrsrc⟩, _, hn3, _, _, _⟩ := hunkLinePush_spec e3 r2.order hplus
+          have hp3 : pend (emit m3) = [] := by rw [pend_emit]; exact pend_nil_of_not_hh hst3
+          refine ⟨⟨hmode3.trans (hmode2.trans inv.mode), hsource3.trans (hsource2.trans inv.source), ?_⟩,
+            hn3.trans hn2, fun _ => ?_, fun h => (by cases h), fun _ => Or.inl hp3⟩
+          · intro dt hh line raw src h
+            rw [emit_st] at h; rw [h] at hst3; simp [isHunkHeader] at hst3
+          · simp only [acct, hp3, List.append_nil]
+            have : srcs (emit m3) = srcs m2 ++ [r.src] := by
+              simp [srcs, timeline_emit, htl3]
+            rw [this, hsrcs2, hrsrc, hn2]
+
+-- the chain -------------------------------------------------------------------
+
+theorem CO.trans_pass {l : L} {m m1 m' : M} {b : Bool} (h1 : CO l m m1 false) (h2 : CO l m1 m' b) : CO l m m' b :=
+  ⟨h2.inv, h2.n.trans h1.n,
+   fun hb => by rw [h2.claimed hb, (h1.passed rfl).1, h1.n],
+   fun hb => ⟨((h2.passed hb).1).trans (h1.passed rfl).1, ((h2.passed hb).2).trans (h1.passed rfl).2⟩,
+   h2.fresh⟩
+
+/-- every handler of the model in color-only mode -/
+theorem handlerOf_co {name : String} {hd : Handler} (hn : handlerOf name = some hd)
+    {cfg : Cfg} {m m' : M} {l : L} {b : Bool} (nf : CONormal cfg) (inv : COInv m) (g : Good m) (hg : l.grep ≠ 2)
+    (hp : pend m = [] ∨ HunkBody l) (hne : name = "emit_line_unchanged" → pend m = [])
+    (e : hd cfg m l = .ok (b, m')) : CO l m m' b := by
+  unfold handlerOf at hn
+  split at hn <;> first
+    | (cases hn
+       first
+         | exact handleCommitMeta_co nf inv hp e | exact handleDiffStat_co inv e
+         | exact handleDiffHeaderDiff_co nf inv hp e | exact handleFileOperation_co nf inv hp e
+         | exact handleMinusLine_co nf inv hp e | exact handlePlusLine_co nf inv hp e
+         | exact handleHunkHeader_co inv hp e | exact handleModeLine_co nf inv hp e
+         | exact handleMisc_co nf inv hp e | exact handleSubmoduleLog_co nf inv hp e
+         | exact handleSubmoduleShort_co nf inv e | exact handleMergeConflict_co nf inv e
+         | exact handleHunkLine_co nf inv g e | exact handleGitShowFile_co inv e
+         | exact handleBlame_co inv g e | exact handleGrep_co inv g hg e
+         | exact handleShouldSkip_co nf inv e | exact handleEmitUnchanged_co inv (hne rfl) e)
+    | cases hn
+
+/-- the hunk-line handler comes before the catch-all in the handler order -/
+def safeOrder : List String → Bool
+  | [] => false
+  | n :: rest =>
+    if n = "handle_hunk_line" then true else if n = "emit_line_unchanged" then false else safeOrder rest
+
+theorem chain_co {cfg : Cfg} {l : L} (nf : CONormal cfg) (hg : l.grep ≠ 2) : ∀ (names : List String) {m m' : M},
+    chain cfg l names m = .ok m' → COInv m → Good m →
+    (pend m = [] ∨ (HunkBody l ∧ safeOrder names = true)) →
+    CO l m m' true ∨ (CO l m m' false ∧ "emit_line_unchanged" ∉ names)
+  | [], m, m', e, inv, g, hp => by
+    simp only [chain] at e; cases e; exact Or.inr ⟨CO.pass inv, by simp⟩
+  | name :: rest, m, m', e, inv, g, hp => by
+    simp only [chain] at e
+    split at e
+    · cases e
+    · rename_i hd hn
+      have hp1 : pend m = [] ∨ HunkBody l := hp.imp id (·.1)
+      have hne : name = "emit_line_unchanged" → pend m = [] := by
+        intro hname
+        rcases hp with h | ⟨_, h⟩
+        · exact h
+        · subst hname; simp [safeOrder] at h
+      split at e
+      · cases e
+      · rename_i m1 e1
+        cases e; exact Or.inl (handlerOf_co hn nf inv g hg hp1 hne e1)
+      · rename_i m1 e1
+        have c1 := handlerOf_co hn nf inv g hg hp1 hne e1
+        have g1 := (handlerOf_step hn e1 g).good
+        have hp' : pend m1 = [] ∨ (HunkBody l ∧ safeOrder rest = true) := by
+          rcases hp with h | ⟨hb, h⟩
+          · exact Or.inl ((c1.passed rfl).2.trans h)
+          · by_cases hpm : pend m = []
+            · exact Or.inl ((c1.passed rfl).2.trans hpm)
+            · refine Or.inr ⟨hb, ?_⟩
+              unfold safeOrder at h
+              split at h
+              · rename_i hname
+                -- the hunk-line handler claims every line met in a hunk-header state
+                exfalso
+                subst hname
+                simp only [handlerOf, Option.some.injEq] at hn
+                subst hn
+                rcases handleHunkLine_spec e1 g with ⟨_, _, hs⟩ | ⟨hb', _, _⟩
+                · rw [hunkState_of_hh (hh_of_pend hpm)] at hs; cases hs
+                · cases hb'
+              · split at h
+                · cases h
+                · exact h
+        rcases chain_co nf hg rest e c1.inv g1 hp' with h | ⟨h, hnot⟩
+        · exact Or.inl (c1.trans_pass h)
+        · refine Or.inr ⟨c1.trans_pass h, ?_⟩
+          intro hmem
+          rcases List.mem_cons.mp hmem with hname | hmem'
+          · -- the catch-all always claims
+            rw [← hname] at hn
+            simp only [handlerOf, Option.some.injEq] at hn
+            subst hn
+            unfold handleEmitUnchanged at e1
+            cases e1
+          · exact hnot hmem'
+
+theorem safeOrder_generated : safeOrder Generated.handlerOrder = true := by decide
+theorem catchAll_generated : "emit_line_unchanged" ∈ Generated.handlerOrder := by decide
+
+/-- one input line in color-only mode, git source: exactly the current line index is appended to
+the accounted lines -/
+theorem step_co {cfg : Cfg} {m m' : M} {l : L} (nf : CONormal cfg) (inv : COInv m) (g : Good m)
+    (hg : l.grep ≠ 2) (hp : pend m = [] ∨ HunkBody l) (e : step cfg m l = .ok m') :
+    COInv m' ∧ Good m' ∧ acct m' = acct m ++ [m.n] ∧ m'.n = m.n + 1 ∧
+      (pend m' = [] ∨ startsWith l.text Generated.Markers.hunkHeader = true) := by
+  have g' := (step_spec e g).1
+  unfold step at e
+  have hinit : stepInit m l = m := by unfold stepInit; simp [inv.source]
+  rw [hinit] at e
+  split at e
+  · cases e
+  · rename_i m2 e2
+    cases e
+    rcases chain_co nf hg _ e2 inv g (hp.imp id (fun h => ⟨h, safeOrder_generated⟩)) with c | ⟨_, hnot⟩
+    · refine ⟨⟨c.inv.mode, c.inv.source, c.inv.hhLine⟩, g', ?_, ?_, c.fresh rfl⟩
+      · exact c.claimed rfl
+      · show m2.n + 1 = m.n + 1
+        rw [c.n]
+    · exact absurd catchAll_generated hnot
+
+-- whole runs ------------------------------------------------------------------
+
+def isHH (l : L) : Bool := startsWith l.text Generated.Markers.hunkHeader
+
+/-- every line that looks like a hunk header (`@@…`) is followed by a line of a hunk body, and the
+input does not end in one. The flag says whether the previous line was such a line. -/
+def Followed : Bool → List L → Prop
+  | p, [] => p = false
+  | p, l :: rest => (p = true → HunkBody l) ∧ Followed (isHH l) rest
+
+theorem runFrom_co {cfg : Cfg} (nf : CONormal cfg) : ∀ (ls : List L) {m m' : M} {p : Bool},
+    runFrom cfg m ls = .ok m' → COInv m → Good m → (∀ l ∈ ls, l.grep ≠ 2) → (pend m = [] ∨ p = true) →
+    Followed p ls →
+    COInv m' ∧ Good m' ∧ pend m' = [] ∧ srcs m' = acct m ++ List.range' m.n ls.length
+  | [], m, m', p, e, inv, g, _, hp, hf => by
+    simp only [runFrom] at e; cases e
+    have hp0 : pend m = [] := by
+      rcases hp with h | h
+      · exact h
+      · rw [show p = false from hf] at h; cases h
+    exact ⟨inv, g, hp0, by simp [acct, hp0]⟩
+  | l :: ls, m, m', p, e, inv, g, hg, hp, hf => by
+    simp only [runFrom] at e
+    split at e
+    · cases e
+    · rename_i m1 e1
+      obtain ⟨hbody, hrest⟩ := hf
+      obtain ⟨inv1, g1, hacct, hn1, hfresh⟩ :=
+        step_co nf inv g (hg l (List.mem_cons_self ..)) (hp.imp id hbody) e1
+      obtain ⟨inv', g', hp', hs⟩ :=
+        runFrom_co nf ls e inv1 g1 (fun x hx => hg x (List.mem_cons_of_mem _ hx)) hfresh hrest
+      refine ⟨inv', g', hp', ?_⟩
+      rw [hs, hacct, hn1, List.length_cons, List.range'_succ, List.append_assoc]
+      rfl
+
+/-- the statements after the loop add nothing in color-only mode -/
+theorem tailOps_co {cfg : Cfg} (hco : cfg.colorOnly = true) : ∀ (ops : List String) {m m' : M},
+    tailOps cfg ops m = .ok m' → m.modeInfo = [] → timeline m' = timeline m
+  | [], m, m', e, _ => by simp only [tailOps] at e; cases e; rfl
+  | op :: rest, m, m', e, hmi => by
+    simp only [tailOps] at e
+    split at e
+    · cases e
+    · rename_i m1 e1
+      have h1 : timeline m1 = timeline m ∧ m1.modeInfo = [] := by
+        unfold tailOp at e1
+        split at e1
+        · cases e1; exact ⟨timeline_flushMP m, (flushMP_modeInfo m).trans hmi⟩
+        · cases e1; rw [pendingDiffName_co hco hmi]; exact ⟨rfl, hmi⟩
+        · cases e1; exact ⟨timeline_emit m, hmi⟩
+        · cases e1
+      exact (tailOps_co hco rest e h1.2).trans h1.1
+
+/-- **`--color-only` is line for line.** For every configuration in the normal form that
+`--color-only` forces and every input whose first line identifies a git diff (`diff --git …`,
+`commit …`), whose `@@` lines are each followed by a hunk-body line and which contains no
+rg-json bookkeeping record: delta writes exactly one row per input line, in input order — the
+`src` (input index) of the rows written is `0, 1, …, n-1`. -/
+theorem run_color_only {cfg : Cfg} (nf : CONormal cfg) {d : L} {ls : List L} {m : M}
+    (hd : detectSource d.text = .gitDiff) (hg : ∀ l ∈ d :: ls, l.grep ≠ 2) (hf : Followed false (d :: ls))
+    (e : run cfg (d :: ls) = .ok m) :
+    m.out.map (·.src) = List.range (ls.length + 1) := by
+  have hout := (run_spec e).2
+  unfold run at e
+  split at e
+  · cases e
+  · rename_i m1 e1
+    -- the first line fixes the source: start from the state `stepInit` produces for it
+    have hsame : (timeline (stepInit ({} : M) d) = [] ∧ (stepInit ({} : M) d).st = .unknown ∧
+        (stepInit ({} : M) d).modeInfo = [] ∧ (stepInit ({} : M) d).n = 0) ∧
+        (stepInit ({} : M) d).source = .gitDiff ∧
+        (stepInit ({} : M) d).minus = [] ∧ (stepInit ({} : M) d).plus = [] ∧ (stepInit ({} : M) d).orderOk = true := by
+      unfold stepInit armCounter
+      simp only [hd, if_true]
+      split
+      · split <;> exact ⟨⟨rfl, rfl, rfl, rfl⟩, rfl, rfl, rfl, rfl⟩
+      · split <;> exact ⟨⟨rfl, rfl, rfl, rfl⟩, rfl, rfl, rfl, rfl⟩
+    obtain ⟨⟨htl0, hst0, hmode0, hn0⟩, hsrc0, hmin0, hpl0, hord0⟩ := hsame
+    have hidem : stepInit (stepInit ({} : M) d) d = stepInit ({} : M) d := by
+      generalize stepInit ({} : M) d = x at hsrc0
+      unfold stepInit; simp [hsrc0]
+    have hfirst : runFrom cfg (stepInit ({} : M) d) (d :: ls) = .ok m1 := by
+      simp only [runFrom, step] at e1 ⊢
+      rw [hidem]; exact e1
+    have inv0 : COInv (stepInit ({} : M) d) :=
+      ⟨hmode0, hsrc0, fun dt hh line raw src h => by rw [hst0] at h; cases h⟩
+    have g0 : Good (stepInit ({} : M) d) := ⟨hord0, fun _ => ⟨hmin0, hpl0⟩, fun _ => hpl0⟩
+    have hp00 : pend (stepInit ({} : M) d) = [] := by unfold pend; rw [hst0]
+    obtain ⟨inv1, _, _, hs⟩ := runFrom_co nf (d :: ls) hfirst inv0 g0 hg (Or.inl hp00) hf
+    have htl : timeline m = timeline m1 := tailOps_co nf.1 _ e inv1.mode
+    have : m.out.map (·.src) = srcs m1 := by rw [← hout, htl]; rfl
+    rw [this, hs, hn0]
+    simp [acct, srcs, htl0, hp00, List.range_eq_range']
 
 end Machine
